@@ -90,6 +90,7 @@ def gen_universe(rng, draft="2020", max_docs=3):
         return "T%d" % mark_n[0]
 
     docs = []  # (retrieval uri, body Obj, canonical uri)
+    ghosts, shadows = [], []     # draft-07: plain-name $ids written beside a $ref (ignored): fresh names / names of effective targets
     used_res = set()   # resource URIs already taken (two equal $ids in one universe are outside every property)
 
     def build_doc(di, retrieval):
@@ -101,7 +102,9 @@ def gen_universe(rng, draft="2020", max_docs=3):
             idv = rng.choice(REL_IDS[:5]) if retrieval and not retrieval.startswith("urn:") else rng.choice([SITE + "/canon/y%d.json" % di, "urn:example:id%d" % di])
             j = join(retrieval, idv)
             if j is not None and is_abs(j) and j not in used_res and j not in uris and j != base:
-                body.set("$id", idv)
+                # draft-07: an $id that ends in a bare '#' (empty fragment, the spelling of the draft-07 meta-schema's own $id) is an
+                # ordinary base URI, not a plain-name identifier
+                body.set("$id", idv + ("#" if draft == "7" and rng.random() < 0.3 else ""))
                 canon = j
         used_res.add(canon)
         used_res.add(retrieval)
@@ -140,7 +143,7 @@ def gen_universe(rng, draft="2020", max_docs=3):
                         else:
                             inner.set("$id", "#" + a2)
                     # a reference to "#" from INSIDE the embedded resource designates that resource's root, not the document's
-                    t = Obj([("$id", idv), (defs_kw, Obj([("in", inner), ("selfref", Obj([("$ref", rng.choice(["#", "#", "#/" + defs_kw + "/in"]))]))])), ("const", m)] +
+                    t = Obj([("$id", idv + ("#" if draft == "7" and rng.random() < 0.3 else "")), (defs_kw, Obj([("in", inner), ("selfref", Obj([("$ref", rng.choice(["#", "#", "#/" + defs_kw + "/in"]))]))])), ("const", m)] +
                             ([("$anchor", anchor)] if anchor and draft == "2020" else []))
                     # anchors declared on the embedded resource's own root belong to the embedded resource
                     targets.append(Target(m, di, [j], anchor if draft == "2020" else None, "", True, True))
@@ -151,6 +154,29 @@ def gen_universe(rng, draft="2020", max_docs=3):
                     continue
             defs.kvs.append((name, t))
             targets.append(Target(m, di, res_uris, anchor, ptr, False, False))
+        if draft == "7" and rng.random() < 0.3 and defs.kvs:
+            # draft-07 section 8.3: every sibling of $ref is ignored, so "$id": "#name" beside "$ref" names nothing. The name is fresh (a
+            # reference to it designates nothing) or that of an effective plain-name $id of the same resource, declared on an entry that
+            # comes before or after it in the document (a reference to the name designates that entry, never the alias)
+            tname, _ = rng.choice(defs.kvs)
+            mine = [t for t in targets if t.doc == di and not t.embedded and t.anchor]
+            alias = Obj([("$ref", "#/" + defs_kw + "/" + frag_encode(ptr_escape(tname)))])
+            if mine and rng.random() < 0.6:
+                t = rng.choice(mine)
+                alias.set("$id", "#" + t.anchor)
+                shadows.append(t)
+            else:
+                gname = "G%d" % (len(ghosts) + 1)
+                alias.set("$id", "#" + gname)
+                ghosts.append((di, gname))
+            if rng.random() < 0.5:
+                alias.kvs.reverse()
+            aname = rng.choice(["0alias", "zalias", "alias", "%alias"])
+            if aname not in defs.keys():
+                if rng.random() < 0.5:
+                    defs.kvs.insert(0, (aname, alias))
+                else:
+                    defs.kvs.append((aname, alias))
         body.set(defs_kw, defs)
         return body, canon
 
@@ -219,6 +245,20 @@ def gen_universe(rng, draft="2020", max_docs=3):
             d9 = True     # embedded resource of a loaded document addressed by its own URI
         props.kvs.append(("p%d" % i, Obj([("$ref", ref)])))
         expect_targets.append(t)
+    for t in shadows:
+        # by its plain name, the target whose name an ignored "$id" beside a "$ref" repeats
+        if rng.random() < 0.7:
+            ru = "" if t.doc == -1 and (root_canon in t.res_uris or not root_canon) else (uris[t.doc] if t.doc >= 0 else rng.choice([u for u in t.res_uris if u] or [""]))
+            if t.doc >= 0:
+                seen_docs.add(t.doc)
+            props.kvs.append(("p%d" % len(expect_targets), Obj([("$ref", ru + "#" + frag_encode(t.anchor))])))
+            expect_targets.append(t)
+    for di, gname in ghosts:
+        if rng.random() < 0.4:
+            ru = uris[di] if di >= 0 else ""
+            props.kvs.append(("p%d" % len(expect_targets), Obj([("$ref", ru + "#" + gname)])))
+            expect_targets.append(None)
+            dangling = True
     root_body.set("properties", props)
     if dangling or rng.random() < 0.2:
         root_body.set("allOf", [True])
